@@ -53,6 +53,9 @@ const NEW_PATHS: &[&str] = &["u", "ud/f", "d/u", "e/", "i.ign", "igd/f", "ud/j.i
 struct Case {
     /// index file mtime minus the indexed file mtime: +10 = not racy, 0 and -1 = racily clean entries
     index_age: i8,
+    /// true: the index is a copy of a prepared one and `core.checkStat=minimal` (stat data = mtime seconds + size) makes it match the fresh files;
+    /// false: default `core.checkStat`, the index is filled by `git reset` (one more git process)
+    minimal_stat: bool,
     ops: Vec<Op>,
 }
 
@@ -86,6 +89,8 @@ fn ops_alphabet() -> Vec<Op> {
 
 struct Template {
     git_dir: PathBuf,
+    /// the index written by `git add`, whose entries carry mtime = M0 and the right sizes
+    index: Vec<u8>,
 }
 static TEMPLATE: OnceLock<Template> = OnceLock::new();
 
@@ -121,8 +126,9 @@ fn template() -> &'static Template {
         git::git(&dir, &["commit", "-q", "-m", "init"]);
         let g = dir.join(".git");
         let _ = std::fs::remove_dir_all(g.join("hooks"));
+        let index = mach(std::fs::read(g.join("index")), "read template index");
         let _ = std::fs::remove_file(g.join("index"));
-        Template { git_dir: g }
+        Template { git_dir: g, index }
     })
 }
 
@@ -138,9 +144,18 @@ fn setup(c: &Case) -> scratch::Dir {
     let dir = scratch::Dir::new("c49");
     mach(scratch::copy_tree(&t.git_dir, &dir.join(".git")), "copy template");
     write_tracked(dir.path());
-    // populate the index from HEAD with the stat data of the files just written
-    git::git(dir.path(), &["reset", "-q"]);
     let idx = dir.join(".git/index");
+    if c.minimal_stat {
+        // inode, ctime, uid ... of the copied files differ from the recorded ones; with checkStat=minimal only mtime seconds and size count
+        mach(std::fs::write(&idx, &t.index), "write index");
+        let cfg = dir.join(".git/config");
+        let mut text = mach(std::fs::read_to_string(&cfg), "read config");
+        text.push_str("[core]\n\tcheckStat = minimal\n");
+        mach(std::fs::write(&cfg, text), "write config");
+    } else {
+        // populate the index from HEAD with the stat data of the files just written
+        git::git(dir.path(), &["reset", "-q"]);
+    }
     set_mtime(&idx, (M0 as i64 + c.index_age as i64) as u64);
     dir
 }
@@ -286,7 +301,7 @@ fn git_status(dir: &Path, mode: Mode) -> BTreeSet<String> {
     match mode {
         Mode::No => c.arg("--untracked-files=no"),
         Mode::Normal => c.args(["--untracked-files=normal", "--ignored=traditional"]),
-        Mode::All => c.args(["--untracked-files=all", "--ignored=traditional"]),
+        Mode::All => c.args(["--untracked-files=all", "--ignored=matching"]),
     };
     let o = git::run_cmd(c, None);
     if !o.ok {
@@ -336,11 +351,14 @@ fn gix_status(dir: &Path, mode: Mode) -> Result<BTreeSet<String>, String> {
         .status(gix::progress::Discard)
         .map_err(|e| format!("status(): {e}"))?
         .untracked_files(untracked)
-        .dirwalk_options(|o| o.emit_ignored(Some(emit)))
+        // entries inside a collapsed directory whose status differs from it (ignored file in an untracked directory) stay visible, like in git
+        .dirwalk_options(|o| o.emit_ignored(Some(emit)).emit_collapsed(Some(gix::dir::walk::CollapsedEntriesEmissionMode::OnStatusMismatch)))
         .index_worktree_rewrites(None)
         .index_worktree_submodules(None)
         .index_worktree_options_mut(|o| {
             o.sorting = Some(gix::status::plumbing::index_as_worktree_with_renames::Sorting::ByPathCaseSensitive);
+            // the harness already runs 16 cases in parallel; worker threads per status call only cost stack mappings
+            o.thread_limit = Some(1);
         })
         .into_index_worktree_iter(Vec::new())
         .map_err(|e| format!("into_index_worktree_iter: {e}"))?;
@@ -380,7 +398,7 @@ fn snapshot_hash(root: &Path, c: &Case) -> u64 {
     snap.retain(|k, _| !k.starts_with(".git/") && k != ".git");
     let mt = |p: &str| std::fs::symlink_metadata(root.join(p)).ok().and_then(|m| m.modified().ok());
     let mtimes: Vec<_> = TRACKED.iter().map(|p| mt(p)).collect();
-    vkit::hash_of(&(c.index_age, format!("{snap:?}"), format!("{mtimes:?}")))
+    vkit::hash_of(&(c.index_age, c.minimal_stat, format!("{snap:?}"), format!("{mtimes:?}")))
 }
 
 fn evaluate(run: &Run, c: &Case) -> Verdict {
@@ -423,7 +441,7 @@ fn evaluate_inner(run: &Run, c: &Case) -> Verdict {
             let only_git: Vec<_> = want.difference(&got).collect();
             let only_gix: Vec<_> = got.difference(want).collect();
             let kind = |v: &Vec<&String>| v.iter().map(|s| s.chars().next().unwrap_or(' ')).collect::<BTreeSet<char>>().into_iter().collect::<String>();
-            let class = format!("status-differs(git:{} gix:{})", kind(&only_git), kind(&only_gix));
+            let class = format!("status-differs(git={} gix={})", kind(&only_git), kind(&only_gix));
             return bad(&class, format!("after {:?}, untracked mode {mode:?}, index_age {}: only git: {only_git:?}; only gix: {only_gix:?}", c.ops, c.index_age));
         }
         run.mc_validated(1);
@@ -440,6 +458,15 @@ fn evaluate_inner(run: &Run, c: &Case) -> Verdict {
     }
 }
 
+/// the operations whose pairs are explored in the quick tier
+fn quick_pair_ops() -> Vec<Op> {
+    use Op::*;
+    vec![
+        SameSizeKeepMtime(0), GrowKeepMtime(0), Touch(0), Chmod(0), Delete(0), ToDir(0), SwapLinkAndFile(0), SameSizeKeepMtime(2), Delete(2), DirToFile,
+        SwapLinkAndFile(3), NestedRepo, Create(0), Create(1), Create(3), Create(4), Create(5), Create(6),
+    ]
+}
+
 /// the operations used for the longest sequences
 fn core_ops() -> Vec<Op> {
     use Op::*;
@@ -451,7 +478,7 @@ pub fn run(run: &'static Run) {
     let alphabet = ops_alphabet();
     let core = core_ops();
     run.rule(format!(
-        "worktree with tracked a (file), x (executable), d/b, l (symlink), .gitignore ('*.ign', 'igd/'); every mutation sequence of length <= 2 over {} operations {:?} \
+        "worktree with tracked a (file), x (executable), d/b, l (symlink), .gitignore ('*.ign', 'igd/'); every mutation sequence of length <= 1 over {} operations {:?} (core.checkStat default and minimal), every pair of them (thorough) or of the 18 operations of quick_pair_ops() (quick; core.checkStat=minimal, index copied) \
          (Create(i) makes {:?}){}; index timestamp - indexed mtime in {{+10 s (not racy), 0 (racily clean){}}}; after the last mutation of every sequence (every prefix is a sequence of its own) \
          status is compared for showUntrackedFiles = no, normal (collapsed, ignored collapsed), all (every file, ignored matching). \
          Non-trivial = final status not clean or the sequence contains a same-size same-mtime edit.",
@@ -459,9 +486,9 @@ pub fn run(run: &'static Run) {
         alphabet,
         NEW_PATHS,
         if thorough { format!(" and every sequence of length 3 over the {} core operations {:?}", core.len(), core) } else { String::new() },
-        if thorough { ", -1 (racily clean, index older than the file)" } else { "; -1 only for sequences with a same-size same-mtime edit" },
+        if thorough { ", -1 (racily clean, index older than the file)" } else { "; -1 only for sequences with a same-size same-mtime edit, +10 for pairs only if they contain an edit/touch of a tracked file" },
     ));
-    run.assume("oracle: git 2.39.5 `status --porcelain=v2 -z --no-renames --untracked-files=normal|all --ignored=traditional` with GIT_OPTIONAL_LOCKS=0 (the oracle never rewrites the index); the expectation for untracked mode `no` is the tracked part of git's answer (checked to be identical in both modes)");
+    run.assume("oracle: git 2.39.5 `status --porcelain=v2 -z --no-renames --untracked-files=normal --ignored=traditional` / `--untracked-files=all --ignored=matching` with GIT_OPTIONAL_LOCKS=0 (the oracle never rewrites the index); the expectation for untracked mode `no` is the tracked part of git's answer (checked to be identical in both modes)");
     run.assume("core.trustctime=false in the fixture so that outcomes do not depend on the wall clock (ctime cannot be set); all mtimes are whole seconds; git 2.39.5 is built without USE_NSEC");
     run.assume("gix side: Repository::status().untracked_files(mode).dirwalk_options(emit_ignored).index_worktree_rewrites(None).index_worktree_submodules(None).into_index_worktree_iter(); NeedsUpdate entries are stat refreshes, not changes; only the index-to-worktree half of status is compared (HEAD == index in all states)");
     run.budget_secs(std::env::var("VERIF_BUDGET").ok().and_then(|s| s.parse().ok()).unwrap_or(run.pick(120.0, 1500.0)));
@@ -470,19 +497,32 @@ pub fn run(run: &'static Run) {
         "sequences",
         vkit::Opts::default().chunk(512),
         |emit| {
-            vkit::enumerate::seqs(&alphabet, 0, 2, |ops| {
+            let quick2 = quick_pair_ops();
+            let mut seqs: Vec<Vec<Op>> = Vec::new();
+            vkit::enumerate::seqs(&alphabet, 0, 1, |ops| seqs.push(ops.to_vec()));
+            vkit::enumerate::seqs(if thorough { &alphabet } else { &quick2 }, 2, 2, |ops| seqs.push(ops.to_vec()));
+            for ops in &seqs {
                 let stealth = ops.iter().any(|o| matches!(o, Op::SameSizeKeepMtime(_)));
+                // quick: pairs that do not touch stat-sensitive state are only run against the racy index (every unchanged file gets a content check)
+                let stat_sensitive = ops.iter().any(|o| matches!(o, Op::SameSizeKeepMtime(_) | Op::SameSizeBumpMtime(_) | Op::GrowKeepMtime(_) | Op::Touch(_)));
                 for index_age in [10i8, 0, -1] {
                     if index_age == -1 && !(thorough || stealth) {
                         continue;
                     }
-                    emit(Case { index_age, ops: ops.to_vec() });
+                    if index_age == 10 && !thorough && ops.len() == 2 && !stat_sensitive {
+                        continue;
+                    }
+                    emit(Case { index_age, minimal_stat: true, ops: ops.clone() });
+                    if ops.len() <= 1 {
+                        // default core.checkStat (inode, uid, ... are compared as well)
+                        emit(Case { index_age, minimal_stat: false, ops: ops.clone() });
+                    }
                 }
-            });
+            }
             if thorough {
                 vkit::enumerate::seqs(&core, 3, 3, |ops| {
                     for index_age in [10i8, 0] {
-                        emit(Case { index_age, ops: ops.to_vec() });
+                        emit(Case { index_age, minimal_stat: true, ops: ops.to_vec() });
                     }
                 });
             }
@@ -498,7 +538,7 @@ pub fn debug_main(args: &[String]) -> ! {
     vkit::scratch::init();
     let index_age: i8 = args[0].parse().unwrap();
     let ops: Vec<Op> = args[1..].iter().map(|a| serde_json::from_str(a).unwrap()).collect();
-    let c = Case { index_age, ops };
+    let c = Case { index_age, minimal_stat: std::env::var("C49_MINIMAL").is_ok(), ops };
     let dir = setup(&c);
     for step in 0..=c.ops.len() {
         if step > 0 {
